@@ -53,6 +53,9 @@ func init() {
 			for _, u := range enum.SeqUnits("bytes", "nl", len(enum.ByteAlphabets["nl"]), L+1, 2) {
 				us = append(us, core.Unit{Name: u})
 			}
+			for _, u := range enum.SeqUnits("bytes", "punct", len(enum.ByteAlphabets["punct"]), 3, 1) {
+				us = append(us, core.Unit{Name: u})
+			}
 			return us
 		},
 		Run: func(w *core.Worker, tier, unit string) {
